@@ -10,6 +10,7 @@ import (
 	"math"
 	"math/rand"
 	"sort"
+	"strconv"
 	"strings"
 	"time"
 
@@ -612,6 +613,35 @@ func genDeepSchema(rng *rand.Rand) []*Schema {
 	return genSchema(rng, 0, 4, false, 8)
 }
 
+// arraysOfDocsSchema: arrays whose members are documents that hold arrays of documents, below nested documents:
+// {a:{b:{outer:[{x, inner:[{y},{y}], z}, ...]}}} with random widths (paths of members share prefixes at several depths)
+func arraysOfDocsSchema(rng *rand.Rand) []*Schema {
+	leaf := func(k string) *Schema { return &Schema{Key: k, Tag: 0x12, Gen: int64Gen(rng)} }
+	innerArr := func() *Schema {
+		var ms []*Schema
+		for j := 0; j < 1+rng.Intn(3); j++ {
+			ms = append(ms, &Schema{Key: strconv.Itoa(j), Tag: 0x03, Kids: []*Schema{leaf("y")}})
+		}
+		return &Schema{Key: "inner", Tag: 0x04, Kids: ms}
+	}
+	var members []*Schema
+	for j := 0; j < 1+rng.Intn(3); j++ {
+		kids := []*Schema{leaf("x"), innerArr()}
+		if rng.Intn(2) == 0 {
+			kids = []*Schema{innerArr(), leaf("x")}
+		}
+		if rng.Intn(2) == 0 {
+			kids = append(kids, leaf("z"))
+		}
+		members = append(members, &Schema{Key: strconv.Itoa(j), Tag: 0x03, Kids: kids})
+	}
+	s := &Schema{Key: "outer", Tag: 0x04, Kids: members}
+	for d := rng.Intn(4); d > 0; d-- {
+		s = &Schema{Key: []string{"a", "b", "c"}[d%3], Tag: 0x03, Kids: []*Schema{s}}
+	}
+	return []*Schema{leaf("t"), s}
+}
+
 // renameOne: a copy of the schema in which one randomly chosen node (never an array element) has another name
 func renameOne(rng *rand.Rand, schema []*Schema) ([]*Schema, bool) {
 	var nodes []*Schema
@@ -662,6 +692,9 @@ func streamViews(o *Out, rng *rand.Rand, thorough bool, _ []string) {
 		}
 		if i%50 == 7 {
 			schema = veryDeepSchema(rng, 33+rng.Intn(80))
+		}
+		if i%25 == 11 {
+			schema = arraysOfDocsSchema(rng)
 		}
 		count := 1 + rng.Intn(7)
 		if i%50 == 19 {
